@@ -1,4 +1,5 @@
 import PPLV.Value.MoveProofsVecThms
+import PPLV.Value.MoveProofsEraseOne
 import PPLV.Value.MoveProofsRecycle
 import PPLV.Value.MoveProofsWorld
 import PPLV.Value.MoveProofsAlias
@@ -60,17 +61,39 @@ theorem swapping_vector_erase_range (h : Heap) (v : SVec) (first last : Nat) (fr
     ∧ Owns (v.eraseRange h first last).1 (owned (v.impl.take first ++ v.impl.drop last) ++ frame) :=
   C13Proofs.swapping_vector_erase_range h v first last frame hO h1 h2
 
-/-- `erase(iterator)` AS WRITTEN (`Swapping_Vector_inlines.hh:193`: `while (i != size()) swap(impl[i-1], impl[i]);`
-never increments `i`) does not terminate unless the element is the last one — KF-C13-17 (dead code in
-the library) -/
-theorem swapping_vector_erase_one_diverges (fuel : Nat) (h : Heap) (v : SVec) (i : Nat) (hi : i + 1 < v.size) :
-    v.eraseOne fuel h i = none := C13Proofs.swapping_vector_erase_one_diverges fuel h v i hi
+/-- **`erase(iterator)`** (the code after the repair of KF-C13-17, commit 0369f1e: `++i;` inside the loop):
+the order of the remaining elements is kept — the same row objects with the same storage —, exactly the
+erased row is destroyed (its cell is freed, every other cell keeps its owner, nothing outside the vector
+is touched), the capacity stays, the returned position is the erased one, and `size - (old_i + 1)`
+iterations reach the loop exit (granting more changes nothing) -/
+theorem swapping_vector_erase_one (h : Heap) (v : SVec) (i : Nat) (frame : List Nat)
+    (hO : Owns h (owned v.impl ++ frame)) (hi : i < v.size) :
+    let out := v.eraseOne h i
+    out.2.1.impl = v.impl.take i ++ v.impl.drop (i + 1)
+    ∧ out.2.1.cap = v.cap
+    ∧ out.2.2 = i
+    ∧ Owns out.1 (owned (v.impl.take i ++ v.impl.drop (i + 1)) ++ frame)
+    ∧ FrameEq h out.1 (owned (v.impl.take i ++ v.impl.drop (i + 1)) ++ frame)
+    ∧ (∀ r, v.impl[i]? = some r → out.1.cells r.impl = none)
+    ∧ (∀ extra, eraseOneLoop (v.size - (i + 1) + extra) (i + 1) v.impl
+                  = eraseOneLoop (v.size - (i + 1)) (i + 1) v.impl) :=
+  C13Proofs.swapping_vector_erase_one h v i frame hO hi
 
-theorem swapping_vector_erase_one_last (fuel : Nat) (h : Heap) (v : SVec) (i : Nat) (hi : i + 1 = v.size) :
-    (v.eraseOne (fuel + 1) h i).map (fun o => o.2.impl) = some v.impl.dropLast :=
-  C13Proofs.swapping_vector_erase_one_last fuel h v i hi
+example : (demoArg.rows.eraseOne demoHeap 0).2.1 = ⟨[⟨5, 1, false⟩, ⟨6, 1, false⟩], 3⟩
+    ∧ (demoArg.rows.eraseOne demoHeap 0).1.cells 4 = none ∧ (demoArg.rows.eraseOne demoHeap 1).2.1.impl = [⟨4, 1, false⟩, ⟨6, 1, false⟩] := by
+  decide
 
-example : ((⟨[⟨0, 1, false⟩, ⟨1, 0, false⟩, ⟨2, 0, false⟩], 3⟩ : SVec).eraseOne 40 Heap.empty 0).isNone = true := by decide
+/-- historical witness (KF-C13-17, fixed): the loop BEFORE the repair
+(`while (i != size()) swap(impl[i-1], impl[i]);` never incremented `i`) did not terminate unless the
+element was the last one -/
+theorem swapping_vector_erase_one_before_fix_diverges (fuel : Nat) (h : Heap) (v : SVec) (i : Nat) (hi : i + 1 < v.size) :
+    v.eraseOneBeforeFix fuel h i = none := C13Proofs.swapping_vector_erase_one_before_fix_diverges fuel h v i hi
+
+theorem swapping_vector_erase_one_before_fix_last (fuel : Nat) (h : Heap) (v : SVec) (i : Nat) (hi : i + 1 = v.size) :
+    (v.eraseOneBeforeFix (fuel + 1) h i).map (fun o => o.2.impl) = some v.impl.dropLast :=
+  C13Proofs.swapping_vector_erase_one_before_fix_last fuel h v i hi
+
+example : ((⟨[⟨0, 1, false⟩, ⟨1, 0, false⟩, ⟨2, 0, false⟩], 3⟩ : SVec).eraseOneBeforeFix 40 Heap.empty 0).isNone = true := by decide
 
 /-! ## recycling entry points
 
